@@ -75,7 +75,99 @@ def reader_labels(ctx):
             os.remove(path)
         os.rmdir(tmpdir)
     ctx.extra['reader_nodes'] = seen
+    other_readers(ctx)
     cross_language(ctx)
+
+
+def other_readers(ctx):
+    """the readers of the formats that *carry* rule labels (C&C XML `type`, Jigg XML `rule`) and of
+    PTB: the label of a derivable binary node comes from the active grammar, whatever the file says
+    (files written under another grammar, by other tools, or with stale / unknown labels)"""
+    import os
+    import tempfile
+    from lxml import etree
+    import tree_common as T
+    import gen_cat
+    from depccg.tree import Tree, ScoredTree
+    from depccg.printer.xml import xml_of
+    from depccg.printer.jigg_xml import to_jigg_xml
+    from depccg.printer.ptb import ptb_of
+    from depccg.tools.reader import read_xml, read_jigg_xml, read_ptb
+    from depccg.grammar import en, ja
+    from depccg import lang as dlang
+    rng = ctx.rng
+    tmpdir = tempfile.mkdtemp(prefix='verif_c12r_')
+    path = os.path.join(tmpdir, 'one.txt')
+    stats = {}
+    foreign = [('unk', '<unk>'), ('fa', '>'), ('ba', '<'), ('bx', '<Bx'), ('conj', '<Φ>'), ('other', 'SSEQ'), ('x-rule', '?'), ('lp', '<lp>')]
+
+    def relabel(n, p):
+        if n.is_leaf:
+            return Tree(n.cat, list(n.children), n.op_string, n.op_symbol)
+        kids = [relabel(c, p) for c in n.children]
+        s, y = (n.op_string, n.op_symbol) if rng.random() > p else rng.choice(foreign)
+        return Tree(n.cat, kids, s, y, n.head_is_left)
+    try:
+        for i in range(ctx.budget(400, 4000)):
+            fmt = ('xml', 'jigg', 'ptb')[i % 3]
+            lang = 'ja' if (fmt == 'jigg' and i % 2) else 'en'
+            mod = en if lang == 'en' else ja
+            if i % 4 == 3:
+                t = T.arbitrary_tree(rng, lang, rng.randint(2, 5), gen_cat.tree_cats(lang),
+                                     T.EN_LABELS if lang == 'en' else T.JA_LABELS, dict(awkward=0.0, attrs=0.6))
+            else:
+                t = T.licensed_tree(rng, lang, rng.randint(1, 4), dict(awkward=0.0, attrs=0.6))
+            t = relabel(t, rng.choice([0.0, 0.5, 1.0]))
+            desc = {'format': fmt, 'lang': lang, 'tree': T.enc_tree(t)[:2000]}
+            dlang.set_global_language_to(lang)
+            try:
+                if fmt == 'ptb':
+                    text = ptb_of(t) + '\n'
+                else:
+                    root = xml_of([[ScoredTree(T.clone(t), -1.0)]]) if fmt == 'xml' else \
+                        to_jigg_xml([[ScoredTree(T.clone(t), -1.0)]], use_symbol=(lang == 'ja'))
+                    text = etree.tostring(root, encoding='utf-8', pretty_print=True).decode('utf-8')
+                with open(path, 'w', encoding='utf-8') as f:
+                    f.write(text)
+                reader = {'xml': read_xml, 'jigg': read_jigg_xml, 'ptb': read_ptb}[fmt]
+                rt = list(reader(path))[0].tree
+            except Exception as e:
+                ctx.fail(f'{fmt}: writing / reading raised {type(e).__name__}: {e}', desc, fingerprint=['reader-raise', fmt])
+                continue
+            finally:
+                dlang.set_global_language_to('en')
+            ctx.evaluations += 1
+
+            def walk(n):
+                if n.is_leaf:
+                    return None
+                if not n.is_unary:
+                    l, r = n.children
+                    rs = [x for x in mod.apply_binary_rules(l.cat, r.cat) if x.cat == n.cat]
+                    if rs:
+                        stats[fmt] = stats.get(fmt, 0) + 1
+                        ctx.nontrivial_add(('reader', fmt, str(l.cat), str(r.cat), str(n.cat)))
+                        labs = {(x.op_string, x.op_symbol) for x in rs}
+                        if (n.op_string, n.op_symbol) not in labs:
+                            return (f'{fmt}: read-back node {n.cat} <- ({l.cat}, {r.cat}) is labelled {n.op_string}/{n.op_symbol}; '
+                                    f'the active ({lang}) grammar derives it by {sorted(labs)}')
+                        if fmt == 'ptb' and bool(n.head_is_left) not in {bool(x.head_is_left) for x in rs}:
+                            return f'{fmt}: read-back node {n.cat} has head_is_left={n.head_is_left}, the grammar says otherwise'
+                    elif (n.op_string, n.op_symbol) != ('unk', '<unk>'):
+                        return f'{fmt}: underivable read-back node {n.cat} is labelled {n.op_string}/{n.op_symbol}'
+                for c in n.children:
+                    why = walk(c)
+                    if why:
+                        return why
+                return None
+            why = walk(rt)
+            if why:
+                ctx.fail(why, desc, fingerprint=['reader-label', fmt, lang])
+    finally:
+        if os.path.exists(path):
+            os.remove(path)
+        os.rmdir(tmpdir)
+    ctx.extra['reader_nodes_by_format'] = stats
 
 
 def cross_language(ctx):
